@@ -712,3 +712,94 @@ package bbolt
 //@   props C04
 //@   requires b != nil && b.tx != nil
 //@   ensures [notbucketvalue] callstotal("(*node).put") == old(callstotal("(*node).put")) && callstotal("(*node).del") == old(callstotal("(*node).del"))
+
+// ---------------------------------------------------------------- C05: cursors
+
+//@ func (*Bucket).pageNode
+//@   opaque
+//@   returns (p, n)
+//@   ensures (p != nil || n != nil)
+//@   modifies nothing
+
+//@ func (*Cursor).first
+//@   opaque
+//@   returns (key, value, flags)
+//@   ensures c.bucket == old(c.bucket) && len(c.stack) >= 1
+//@   ensures flags % 2 == 1 ==> value == nil
+//@   modifies c.stack, all("elemRef.page"), all("elemRef.node"), all("elemRef.index")
+
+//@ func (*Cursor).next
+//@   opaque
+//@   returns (key, value, flags)
+//@   ensures c.bucket == old(c.bucket) && len(c.stack) >= 1
+//@   modifies c.stack, all("elemRef.page"), all("elemRef.node"), all("elemRef.index")
+
+//@ func (*Cursor).prev
+//@   returns (key, value, flags)
+//@   props C05
+//@   requires c != nil && len(c.stack) >= 1
+//@   ensures [stack] c.bucket == old(c.bucket) && len(c.stack) >= 1
+//@   ensures [beginning] callstotal("(*Cursor).first") != old(callstotal("(*Cursor).first")) ==> key == nil && value == nil && flags == 0
+//@   ensures [moved] callstotal("(*Cursor).first") == old(callstotal("(*Cursor).first")) ==> lastret("(*Cursor).prevElem", 0)
+//@   modifies c.stack, all("elemRef.page"), all("elemRef.node"), all("elemRef.index")
+
+//@ func (*Cursor).prevElem
+//@   opaque
+//@   ensures c.bucket == old(c.bucket) && len(c.stack) >= 1
+//@   ensures result ==> elemcount(c.stack[len(c.stack)-1]) > 0 && 0 <= c.stack[len(c.stack)-1].index && c.stack[len(c.stack)-1].index < elemcount(c.stack[len(c.stack)-1])
+//@   modifies c.stack, all("elemRef.page"), all("elemRef.node"), all("elemRef.index")
+
+//@ func (*Cursor).last
+//@   opaque
+//@   ensures c.bucket == old(c.bucket) && len(c.stack) >= 1
+//@   modifies c.stack, all("elemRef.page"), all("elemRef.node"), all("elemRef.index")
+
+// number of elements of the page/node an elemRef points to (elemRef.count)
+//@ pure func elemcount(r *elemRef) int = r.node != nil ? len(r.node.inodes) : r.page.count
+
+//@ func (*Cursor).keyValue
+//@   returns (key, value, flags)
+//@   props C05 C04
+//@   requires c != nil && len(c.stack) >= 1
+//@   requires let r := c.stack[len(c.stack)-1] in (r.node != nil || r.page != nil) && (r.index >= 0 || elemcount(r) == 0)
+//@   ensures [end] (let r := c.stack[len(c.stack)-1] in elemcount(r) == 0 || r.index >= elemcount(r)) ==> key == nil && value == nil && flags == 0
+//@   ensures [node] (let r := c.stack[len(c.stack)-1] in r.node != nil && elemcount(r) > 0 && r.index < elemcount(r)) ==> (let r := c.stack[len(c.stack)-1] in key == r.node.inodes[r.index].key && value == r.node.inodes[r.index].value && flags == r.node.inodes[r.index].flags)
+//@   modifies nothing
+
+//@ func (*Cursor).First
+//@   returns (key, value)
+//@   props C05
+//@   requires c != nil && c.bucket != nil && c.bucket.tx != nil && c.bucket.tx.db != nil
+//@   ensures [bucketnil] lastret("(*Cursor).first", 2) % 2 == 1 ==> value == nil
+//@   ensures [once] callstotal("(*Cursor).first") == old(callstotal("(*Cursor).first")) + 1
+
+//@ func (*Cursor).Next
+//@   returns (key, value)
+//@   props C05
+//@   requires c != nil && c.bucket != nil && c.bucket.tx != nil && c.bucket.tx.db != nil
+//@   ensures [bucketnil] lastret("(*Cursor).next", 2) % 2 == 1 ==> value == nil
+//@   ensures [once] callstotal("(*Cursor).next") == old(callstotal("(*Cursor).next")) + 1 && callstotal("(*Cursor).prev") == old(callstotal("(*Cursor).prev"))
+
+//@ func (*Cursor).Prev
+//@   returns (key, value)
+//@   props C05
+//@   requires c != nil && c.bucket != nil && c.bucket.tx != nil && c.bucket.tx.db != nil && len(c.stack) >= 1
+//@   ensures [bucketnil] lastret("(*Cursor).prev", 2) % 2 == 1 ==> value == nil
+//@   ensures [once] callstotal("(*Cursor).prev") == old(callstotal("(*Cursor).prev")) + 1 && callstotal("(*Cursor).next") == old(callstotal("(*Cursor).next"))
+
+//@ func (*Cursor).Seek
+//@   returns (key, value)
+//@   props C05
+//@   requires c != nil && c.bucket != nil && c.bucket.tx != nil && c.bucket.tx.db != nil
+//@   ensures [bucketnil] callstotal("(*Cursor).next") != old(callstotal("(*Cursor).next")) && lastret("(*Cursor).next", 2) % 2 == 1 ==> value == nil
+//@   ensures [bucketnilseek] callstotal("(*Cursor).next") == old(callstotal("(*Cursor).next")) && lastret("(*Cursor).seek", 2) % 2 == 1 ==> value == nil
+//@   ensures [atmostonenext] callstotal("(*Cursor).next") <= old(callstotal("(*Cursor).next")) + 1
+
+//@ func (*Cursor).Delete
+//@   props C05 C04
+//@   requires c != nil && c.bucket != nil && c.bucket.tx != nil && len(c.stack) >= 1
+//@   requires let r := c.stack[len(c.stack)-1] in (r.node != nil || r.page != nil) && (r.index >= 0 || elemcount(r) == 0)
+//@   ensures [closed] old(c.bucket.tx.db) == nil ==> result == berrors.ErrTxClosed
+//@   ensures [readonly] old(c.bucket.tx.db) != nil && !old(c.bucket.tx.writable) ==> result == berrors.ErrTxNotWritable
+//@   ensures [noerrwrite] result != nil ==> callstotal("(*node).del") == old(callstotal("(*node).del"))
+//@   ensures [bucketentry] lastret("(*Cursor).keyValue", 2) % 2 == 1 && old(c.bucket.tx.db) != nil && old(c.bucket.tx.writable) ==> result == berrors.ErrIncompatibleValue
